@@ -197,12 +197,12 @@ AdaptOK(e) ==
         tolM == IF e.a.form = "xyz" /\ e.b.form = "xyz" THEN T1(Tol1e9) ELSE T1(Tol1e6)
     IN /\ ~e.panic                                                   \* no physically valid white is refused
        /\ NearMat(ab, ExactAdapt(e.a, e.b), tolM)                    \* equals the Bradford matrix
-       /\ MapsWhite(ab, e.a, e.b, T1(Tol1e6))                        \* A's white -> B's white
+       /\ MapsWhite(ab, e.a, e.b, Mul(T1(Tol1e6), FromInt(e.scale)))  \* A's white -> B's white (10^-6 of the luminance scale)
        /\ \A r \in Idx : \A c \in Idx :                               \* A -> A is the identity
             Near(aa[r][c], IF r = c THEN IFromInt(1) ELSE IZero, IFromInt(1), T1(Tol1e9), S18)
        /\ NearIdentProd(ba, ab, T1(Tol1e9))                           \* (B->A)(A->B) = I
        /\ \A r \in Idx : Near(Obs(e.applied[r]),                      \* Apply(white A) = white B (float32 path)
-                              IMul(WhiteVec(e.b).vec[r], IFromInt(1)), WhiteVec(e.b).den, T1(Tol1e6), S18)
+                              IMul(WhiteVec(e.b).vec[r], IFromInt(1)), WhiteVec(e.b).den, Mul(T1(Tol1e6), FromInt(IF e.scale = 1 THEN 1 ELSE e.scale \div 10)), S18)
        /\ e.same_xyy                                                   \* xyY and XYZ constructors agree
 \* ColorFromXYY: (x Y / y, Y, (1 - x - y) Y / y) in float32.  The third component is a
 \* difference (1 - x - y) scaled by Y / y = X + Y + Z, so the rounding of each component is
